@@ -14,6 +14,53 @@ from ..cast.cfg import cfg_of, stmt_text
 from ..cast.loader import backend_tu
 
 
+def _units_per_iteration(g, loopcond):
+    """(min, max) number of `*result++ = ...` stores on the paths of one loop iteration"""
+    starts = [t for t, l in loopcond.succ if l == 'T']
+    best = [None, None]
+
+    def rec(i, count, seen):
+        if i == loopcond.id:
+            best[0] = count if best[0] is None else min(best[0], count)
+            best[1] = count if best[1] is None else max(best[1], count)
+            return
+        if i in seen:
+            return
+        n = g.nodes[i]
+        c = count
+        if n.ast is not None and n.kind == 'stmt' and stmt_text(n.ast).startswith('*result++ ='):
+            c += 1
+        for t, _l in n.succ:
+            rec(t, c, seen | {i})
+    for s0 in starts:
+        rec(s0, 0, frozenset())
+    return best[0], best[1]
+
+
+def _guard_bounds_cursor(g, fn, facts, loop):
+    import re as _re
+    for t in sorted(facts):
+        if not t.startswith('T:'):
+            continue
+        e = t[2:].replace(' ', '')
+        m = _re.match(r'^result<(\w+)$', e) or _re.match(r'^(\w+)>result$', e)
+        if m:
+            d = rules.single_def(fn, m.group(1))
+            dt = cx.render(d).replace(' ', '') if d is not None else None
+            if dt in ('result+resultlen', 'resultlen+result'):
+                return True, 'cursor compared with %s = %s' % (m.group(1), dt)
+            return False, 'cursor compared with %s, which is not result + resultlen (%s)' % (m.group(1), dt)
+        m = _re.match(r'^resultlen>(\w+)$', e) or _re.match(r'^(\w+)<resultlen$', e)
+        if m and loop:
+            lo, hi = _units_per_iteration(g, loop[0])
+            if m.group(1) == 'len' and (lo, hi) == (1, 1):
+                return True, 'capacity compared with len and every iteration writes exactly one unit'
+            return False, ('capacity compared with %s, but one iteration of the copy loop writes between %s and %s units: '
+                           'the number of units written is not %s' % (m.group(1), lo, hi, m.group(1)))
+    from .. import AnalysisError
+    raise AnalysisError('_my_PyUnicode_AsChar16: the guard of the terminator store (%s) is not in a form this rule decides' % sorted(facts))
+
+
 def s1(run, tu):
     fn = 'convert_array_from_object'
     g = cfg_of(tu, fn)
@@ -71,6 +118,12 @@ def s1(run, tu):
             after = bool(loop) and 'F:i < len' in facts
             ok = ok and guarded and after
             detail += '; store under %s' % sorted(t for t in facts if 'resultlen' in t or 'end' in t or 'i < len' in t)
+            # the guard must bound the *write cursor*: either it compares the cursor with base+capacity,
+            # or it compares the capacity with a count that really is the number of units written
+            if ok:
+                okc, why = _guard_bounds_cursor(g16, h16, facts, loop)
+                ok = ok and okc
+                detail += '; ' + why
     run.ob('S1/wide-helper-writes-terminator-when-room', '_my_PyUnicode_AsChar16', 'zero unit stored after the copied units when resultlen exceeds them', ok,
            tu.where(h16), detail)
     h32 = tu.func('_my_PyUnicode_AsChar32')
@@ -111,6 +164,65 @@ def s1(run, tu):
     ok = len(pair) == 2 and len(single) == 1
     run.ob('S1/converter-writes-two-units-for-astral-characters', '_my_PyUnicode_AsChar16', '0xD800 | hi ; 0xDC00 | lo', ok, tu.where(h16),
            'stores under ordinal > 0xFFFF: %d, otherwise: %d' % (len(pair), len(single)))
+
+
+def _accepted_units(g, conds, var_keys, bits):
+    """set of 16-bit unit values for which every (cond node, label) holds; exact: exhaustive, or the
+    reduced set {block|00, 01, FE, FF} when every constant has a low byte of 00 or FF"""
+    from ..cast import absint
+    from ..cast.absint import Con
+    from .. import AnalysisError
+    consts = [int(x['value']) for cn, _l in conds for x in cx.walk(cn.ast) if x.get('kind') == 'IntegerLiteral']
+    reduced = all((c & 0xFF) in (0x00, 0xFF) for c in consts)
+    dom = [b << 8 | lo for b in range(256) for lo in (0x00, 0x01, 0xFE, 0xFF)] if reduced else range(65536)
+    it = absint.Interp(g, {})
+    acc = set()
+    for v in dom:
+        env = {k: Con(v, bits, False) for k in var_keys}
+        ok = True
+        for cn, lab in conds:
+            r = it.ev(cn.ast, dict(env))
+            if not isinstance(r, Con):
+                raise AnalysisError('%s: cannot evaluate `%s` for a unit value' % (g.name, cx.render(cn.ast)))
+            if bool(r.v) != (lab == 'T'):
+                ok = False
+                break
+        if ok:
+            acc.add(v)
+    return acc, dom
+
+
+def s4(run, tu):
+    """the two loops of _my_PyUnicode_FromChar16 join exactly (high, low) surrogate pairs"""
+    F = '_my_PyUnicode_FromChar16'
+    g = cfg_of(tu, F)
+    targets = []
+    for n in g.nodes:
+        if n.ast is None or n.kind != 'stmt':
+            continue
+        t = stmt_text(n.ast).replace(' ', '')
+        if t in ('count_surrogates++', '++count_surrogates', 'count_surrogates+=1'):
+            targets.append(('counting loop', n, ('w[i]',), ('w[i + 1]',), 16))
+        elif t.startswith('ch=') and '65536' in t:
+            targets.append(('joining loop', n, ('ch',), ('ch2',), 32))
+    run.need(len(targets) == 2, '%s: expected the counting increment and the joining assignment, found %d' % (F, len(targets)))
+    HI = set(range(0xD800, 0xDC00))
+    LO = set(range(0xDC00, 0xE000))
+    for label, n, k1, k2, bits in targets:
+        facts = g.dominating_facts(n.id)
+        for which, keys, want in (('first unit is a high surrogate', k1, HI), ('second unit is a low surrogate', k2, LO)):
+            conds = [(cn, l) for cn, l in facts if cn.kind == 'cond' and any(k in cx.subexprs_text(cn.ast) for k in keys) and
+                     not (cx.refs(cn.ast) & {'size'})]
+            if not conds:
+                run.ob('S4/surrogate-pairs-joined-exactly', F, '%s: %s' % (label, which), False, tu.where(n.ast), 'no test of %s dominates the join' % (keys,))
+                continue
+            acc, dom = _accepted_units(g, conds, keys, bits)
+            wantd = {v for v in dom if v in want}
+            extra = sorted(acc - wantd)
+            missing = sorted(wantd - acc)
+            run.ob('S4/surrogate-pairs-joined-exactly', F, '%s: %s  [%s]' % (label, which, ' && '.join(('' if l == 'T' else '!') + '(%s)' % cx.render(cn.ast) for cn, l in conds)),
+                   not extra and not missing, tu.where(conds[0][0].ast),
+                   ('also accepts 0x%04X..' % extra[0] if extra else '') + (' rejects 0x%04X..' % missing[0] if missing else '') or 'accepts exactly the range')
 
 
 def s2(run, tu):
@@ -173,7 +285,9 @@ def check(run):
     s1(run, tu)
     s2(run, tu)
     s3(run, tu)
+    s4(run, tu)
+    run.min_instances('S4', 4)
     run.min_instances('S1', 9)
     run.min_instances('S2/bound-tested-before-reading-the-unit', 2)
     run.min_instances('S3', 3)
-    run.assume('CPython bytes objects are NUL-terminated; surrogate arithmetic values are not decided')
+    run.assume('CPython bytes objects are NUL-terminated; which units are joined into one code point is decided (S4, exact over all 16-bit values), the joining arithmetic itself is not')
